@@ -95,3 +95,16 @@ claim("C15", "epochsim", SIM + "consensus-group well-formedness and cross-node/c
       "Same runs; sampled groups must have the configured size, distinct members from the shard's eligible list of that epoch, the same leader-first order on all nodes, on a second call and on a node whose cache holds one entry, with rater weights. Sampling, not proof.", EPOCH_NOTE)
 claim("C16", "epochsim", SIM + "one-place invariant after every EpochStartPrepare on every node",
       "Same runs; every public key is in at most one shard and one of eligible/waiting, and GetValidatorWithPublicKey reports that shard. Sampling, not proof.", EPOCH_NOTE)
+
+claim("C05", "syncsim", SIM + "real trie syncers fed through a simulated network (drop, duplicate, delay/reorder, partition/heal, forged answers, slow peers, disk errors, cancellation) under a synctest clock; completeness/content-addressing oracle by an independent walker over the destination disk; bounded-liveness probe in the fault-free arm",
+      "Seeded source tries (up to 400 leaves, optional data tries through the real userAccountsSyncer), 1-4 peers (honest/partial/Byzantine) answering through the real TrieNodeResolver, both syncer implementations, responses through NewInterceptedTrieNode/CheckValidity/TrieNodeInterceptorProcessor into the real cacher; when StartSyncing returns nil every node reachable from the root must be on the destination disk under the hash of its own bytes and the recreated trie must hold the source contents; a panic on a forged node is a violation. Sampling, not proof.",
+      "Go map iteration inside the syncers decides request contents and round counts, so the event log holds plan-derived lines only and replays are re-executed up to 20 times; request handler, topic senders, antiflood/throttler and the multi-data interceptor loop are simulator stubs; after an injected read error in the accounts arm only the main trie is judged (GetAllLeavesOnChannel swallows read errors).")
+SC_NOTE = "Real vmContext (eei), system SC container from vm/factory and systemVM; the blockchain hook (accounts, storage, logical nonce/epoch/round, random seed) and the applier of VMOutput (stand-in for scProcessor: applies on Ok, discards otherwise; does not reject overdrafts) are simulator-owned; signature/key checks accept."
+claim("C38", "scsim", SIM + "bookkeeping invariants after every successful transaction, by view functions and by decoding the stored records",
+      "Seeded delegate/unDelegate/withdraw/claim/reDelegate/updateRewards/node-management sequences over 2-4 delegators with epoch ticks and amounts around the minimum; totals equal sums, referenced funds exist, withdrawals <= undelegated, rewards paid <= rewards received. Sampling, not proof.", SC_NOTE)
+claim("C39", "scsim", SIM + "queue well-formedness and counter invariants after every successful call, decoded from the staking contract's storage",
+      "Seeded stake/unStake/unBond/jail/unJail/queue operations over 3-8 BLS keys with small min/max node counts and flags on/off; the waiting list must be a well-formed doubly linked list matching its markers and the Waiting keys; StakedNodes equals the number of Staked keys and respects the maximum unless it was lowered. Sampling, not proof.", SC_NOTE)
+claim("C40", "scsim", SIM + "nested-call failure injection (synthetic callee failing at a planned point, depth 1-3, and real contract pairs driven into failure); a forwarding spy between contracts and the real eei records writes per frame",
+      "After every failed ExecuteOnDestContext the keys the callee touched must read their pre-call values and the final VMOutput of a continuing caller must hold none of the callee's writes or transfers. Sampling, not proof.", SC_NOTE)
+claim("C41", "scsim", SIM + "history oracle over issue calls with a simulator-owned random seed (seeds searched so that candidates collide, exhaust the retry budget and cross ffffff)",
+      "Every successful issue must return TICKER-[0-9a-f]{6} not returned or stored before. Sampling, not proof.", SC_NOTE)
